@@ -3,7 +3,7 @@
 cd /verif
 extra_for() {
   case "$1" in
-    C03) echo "C16";; C04) echo "C05";; C05) echo "C04";; C16) echo "C03 C04";; C17) echo "C18";; C09) echo "C08";; C08) echo "C09";; C06) echo "C14";; C14) echo "C06";; C19) echo "C13";; C13) echo "C19";; C01) echo "C12";; C11) echo "C12";; *) echo "";;
+    C03) echo "C16";; C04) echo "C05";; C05) echo "C04";; C16) echo "C03 C04 C05";; C17) echo "C18";; C09) echo "C08";; C08) echo "C09";; C06) echo "C14";; C14) echo "C06";; C19) echo "C13";; C13) echo "C19";; C01) echo "C12";; C15) echo "C04";; C12) echo "C10";; C11) echo "C12";; *) echo "";;
   esac
 }
 for d in ${@:-$(ls -d /tmp/wtout/C*/m*)}; do
